@@ -111,6 +111,10 @@ func (c *gctx) class() *Expr {
 	if c.chance(1, 5) {
 		e.Invert = true
 	}
+	if c.cfg.Unicode && c.chance(1, 10) {
+		// runes whose case mapping crosses the ASCII boundary, and range edges
+		e.Chars = append(e.Chars, []rune{0x212a, 0x130, 0x17f, 0x7f, 0x80, 0xfffd}[c.r.Intn(6)])
+	}
 	if c.cfg.Fold && c.chance(1, 5) {
 		e.Fold = true
 		for i, ch := range e.Chars {
